@@ -121,6 +121,81 @@ fn main() {
             ct_marker_end();
             data
         }
+        "xchacha20" => {
+            let nonce = [7u8; 24];
+            let k: [u8; 32] = arr(&secret);
+            let mut data = public.clone();
+            ct_marker_begin();
+            let mut c = cryptoxide::chacha20::XChaCha::<20>::new(black_box(&k), &nonce);
+            c.process_mut(black_box(&mut data));
+            ct_marker_end();
+            data
+        }
+        "chacha20_original" => {
+            let nonce = [7u8; 8];
+            let mut data = public.clone();
+            ct_marker_begin();
+            let mut c = cryptoxide::chacha20::ChaChaOriginal::<20>::new(black_box(&secret), &nonce);
+            c.process_mut(black_box(&mut data));
+            ct_marker_end();
+            data
+        }
+        "xsalsa20" => {
+            let nonce = [7u8; 24];
+            let k: [u8; 32] = arr(&secret);
+            let mut data = public.clone();
+            ct_marker_begin();
+            let mut c = cryptoxide::salsa20::XSalsa20::new(black_box(&k), &nonce);
+            c.process_mut(black_box(&mut data));
+            ct_marker_end();
+            data
+        }
+        "hmac_sha512" => {
+            let mut tag = [0u8; 64];
+            ct_marker_begin();
+            let mut m = cryptoxide::hmac::Hmac::new(cryptoxide::sha2::Sha512::new(), black_box(&secret));
+            m.input(black_box(&public));
+            m.raw_result(&mut tag);
+            ct_marker_end();
+            tag.to_vec()
+        }
+        "hmac_sha1" => {
+            let mut tag = [0u8; 20];
+            ct_marker_begin();
+            let mut m = cryptoxide::hmac::Hmac::new(cryptoxide::sha1::Sha1::new(), black_box(&secret));
+            m.input(black_box(&public));
+            m.raw_result(&mut tag);
+            ct_marker_end();
+            tag.to_vec()
+        }
+        "blake2b_mac" => {
+            let mut tag = [0u8; 32];
+            ct_marker_begin();
+            let mut m = cryptoxide::blake2b::Blake2b::new_keyed(32, black_box(&secret));
+            m.input(black_box(&public));
+            m.raw_result(&mut tag);
+            ct_marker_end();
+            tag.to_vec()
+        }
+        "ed_exchange" => {
+            let s: [u8; 32] = arr(&secret);
+            let p: [u8; 32] = arr(&public);
+            ct_marker_begin();
+            let r = cryptoxide::ed25519::exchange(black_box(&p), black_box(&s));
+            ct_marker_end();
+            r.to_vec()
+        }
+        "aead_encrypt" => {
+            let nonce = [7u8; 12];
+            let mut out = vec![0u8; public.len()];
+            let mut tag = [0u8; 16];
+            ct_marker_begin();
+            let mut c = cryptoxide::chacha20poly1305::ChaCha20Poly1305::new(black_box(&secret), &nonce, b"header");
+            c.encrypt(black_box(&public), &mut out, &mut tag);
+            ct_marker_end();
+            out.extend_from_slice(&tag);
+            out
+        }
         "macresult_eq" => {
             let a = cryptoxide::mac::MacResult::new(&secret);
             let b = cryptoxide::mac::MacResult::new(&public);
